@@ -1,5 +1,7 @@
 #!/usr/bin/env python3
-"""usage: tools/seedrun_scratch.py [<ID>/<X> ...]   (default: every /verif/seeded/*/*)
+"""(restores use rsync --checksum without -t: a restored file gets a fresh mtime, otherwise cargo would keep the facts of the
+previously patched version)
+usage: tools/seedrun_scratch.py [<ID>/<X> ...]   (default: every /verif/seeded/*/*)
 Like seedrun.py but never touches /repo or the main fact cache: works on one scratch copy of /repo's working tree
 (outside /repo and /verif, removed at the end) with its own cache, so checks can keep running in /verif meanwhile.
 Records which checks fire in /verif/seeded/<ID>/<X>/detected.json."""
@@ -37,13 +39,13 @@ def main():
         env = dict(os.environ)
         env.update({"VERIF_REPO": repo, "VERIF_CACHE": cache, "VERIF_EVIDENCE_DIR": os.path.join(scratch, "evidence"),
                     "VERIF_OUT_DIR": os.path.join(scratch, "out"), "VERIF_TIER": "quick"})
-        sh("rsync -a --delete --exclude /target --exclude /.git /repo/ %s/" % repo)
+        sh("rsync -rlpgoD --checksum --delete --exclude /target --exclude /.git /repo/ %s/" % repo)
         base = sh("./check all", V, env).stdout
         if "VIOLATION" in base:
             print("BASELINE NOT CLEAN in scratch copy:\n" + "\n".join(l for l in base.splitlines() if "VIOLATION" in l or "rule=" in l)[:2000])
         for t in targets:
             d = os.path.join(V, "seeded", t)
-            sh("rsync -a --delete --exclude /target --exclude /.git /repo/ %s/" % repo)
+            sh("rsync -rlpgoD --checksum --delete --exclude /target --exclude /.git /repo/ %s/" % repo)
             ap = sh("git apply --unsafe-paths --directory=%s %s" % (repo, os.path.join(d, "patch.diff")), "/")
             if ap.returncode != 0:
                 ap = sh("patch -p1 -s -f -i %s" % os.path.join(d, "patch.diff"), repo)
